@@ -21,6 +21,10 @@ TEXT = {
          "common-mode risk: refcodec and the library were read from the same description; agreement pins today's format"),
  "C11": ("After every prefix of the workloads an independent reader checks the raw database: PRAGMA integrity_check and foreign_key_check clean, verify() passes, every stored performance blob decodes, 1.x Crate.path / CrateParentList / CrateHierarchy all describe the model forest, 2.x nextListId / nextEntityId chains are single acyclic lists covering all rows, filename / file-extension metadata / fileType / origin columns agree with path and UUID, no orphan rows.",
          "on-disk libraries only (the auditor needs a file to open); audit right after an injected fault is skipped"),
+ "C03": ("Generated blob values (doubles of every class compared by bit pattern, int edges, labels of 0..300 arbitrary bytes, 0..12 entries, large grids/waveforms, arbitrary extra_data) written through the 2.x table API and the 1.x/2.x snapshot and setter paths onto the simulated disk and read back: the value must be equal, or the write must have been rejected with nothing stored ('stored but decodes differently' and 'stored but no longer decodable' are the violation classes).",
+         "1.x codec values unreachable through the public API are not generated (stated gap)"),
+ "C18": ("2.x table-API histories against a row model: get() after add()/update() equals the written row except id, last-edit time and origin fix-up; every per-column getter equals the row field; every per-column setter changes that column only (all other columns of all rows re-read and compared after each step); accessors and remove() naming a nonexistent row must throw; playlist/entity listings follow a sequence model.",
+         "row generator gives every same-typed pair of columns different values so that a transposed bind cannot hide"),
  "C14": ("Fault enumeration inside each mutating call: for sampled (pre-state, call) pairs on an on-disk library the call is re-executed from the same restored disk image once per fault position - every SQL statement failing with BUSY/ERROR/READONLY (exhaustive), every VFS call of the call addressed as (method, file, ordinal), every VM tick (cancellation), seeded SQLite allocation failures - and the full public observation afterwards must equal the pre-state (or, for real-path faults that SQLite reports after its commit point, exactly the fault-free post-state); errors must surface as std::exception and the call must succeed when retried.",
          "inner loop exhaustive for F1 and within caps (256) for F2/F3, outer loop sampled; F1 is a stub-level fault at the statement boundary, F2-F4 go through SQLite's real pager/journal error paths on the simulated disk"),
  "C16": ("In every state reached by the workloads a monitor brackets the complete block of observing calls (every getter, snapshot(), listings, lookups) with SimDisk write/truncate/delete counters for non-temporary files, sqlite3_total_changes of the library's connections and the image hash; the block is repeated with the simulated clock moved and must give identical answers.",
